@@ -168,7 +168,7 @@ class Public_key(object):
         if (
             verify
             and self.curve.cofactor() != 1
-            and not n * point == ellipticcurve.INFINITY
+            and not _in_prime_order_subgroup(point, n)
         ):
             raise InvalidPointError("Generator point order is bad.")
 
@@ -316,6 +316,17 @@ def digest_integer(m):
     return string_to_int(sha1(int_to_string(m)).digest())
 
 
+def _in_prime_order_subgroup(point, n):
+    """Is n * point the point at infinity?
+
+    Tested as (n - 1) * point == -point for a point with y != 0: the point at
+    infinity is encoded as y == 0 in this library, so a point of order two
+    (x, 0) - and with it every n * point that ends there - would be taken
+    for it by the direct comparison.
+    """
+    return bool(point.y()) and (n - 1) * point == -point
+
+
 def point_is_valid(generator, x, y):
     """Is (x,y) a valid public key based on the specified generator?"""
 
@@ -328,10 +339,8 @@ def point_is_valid(generator, x, y):
         return False
     if not curve.contains_point(x, y):
         return False
-    if (
-        curve.cofactor() != 1
-        and not n * ellipticcurve.PointJacobi(curve, x, y, 1)
-        == ellipticcurve.INFINITY
+    if curve.cofactor() != 1 and not _in_prime_order_subgroup(
+        ellipticcurve.PointJacobi(curve, x, y, 1), n
     ):
         return False
     return True
